@@ -5,7 +5,8 @@
    new_section lets through (0 only for the built-in .text, or 2^k with k <= 31).  reachable h: init, new_section,
    any size update, flatten. *)
 From Coq Require Import ZArith List Bool Sorted Permutation.
-From Verif Require Import Sections.SectionModel Sections.SectionProofs Sections.SectionTable Sections.CopyProofs
+From Verif Require Import Reloc.RelocModel Sections.SectionModel Sections.ChunkModel Sections.ChunkProofs Sections.JitReloc
+  Sections.JitRelocProofs Sections.SectionProofs Sections.SectionTable Sections.CopyProofs
   Sections.ShrinkProofs Sections.StableProofs Sections.CoverProofs Sections.SectionSummary Sections.SectionExamples.
 Import ListNotations.
 Local Open Scope Z_scope.
@@ -157,14 +158,120 @@ Theorem C10_copy_section_exact : forall h mem dst id ps, 0 <= dst <= Z.of_nat (l
 Proof. exact copy_section_spec. Qed.
 Print Assumptions C10_copy_section_exact.
 
+(* ---- the run-length ("chunked") copy functions the model driver executes compute exactly the flat ones
+   (offsets and buffer sizes non-negative, which every wf_holder / flattened holder satisfies) ---- *)
+Theorem C10_chunked_copy_equiv :
+  (forall h m dst ps pt, Forall nonneg h ->
+     copy_flat h (flat m) dst ps pt = (fst (copy_flat_c h m dst ps pt), flat (snd (copy_flat_c h m dst ps pt)))) /\
+  (forall h m dst id ps, (forall s, by_id h id = Some s -> 0 <= sbsize s) ->
+     copy_section h (flat m) dst id ps = (fst (copy_section_c h m dst id ps), flat (snd (copy_section_c h m dst id ps)))) /\
+  (forall h fill, (forall h1, flatten h = (EOk, h1) -> Forall nonneg h1) ->
+     let '(e, n, img, h1) := jit_add_c h fill in jit_add h fill = (e, n, flat img, h1)).
+Proof. exact (conj copy_flat_c_flat (conj copy_section_c_flat jit_add_c_flat)). Qed.
+Print Assumptions C10_chunked_copy_equiv.
+
+(* ---- relocation applied to the holder (C04's `relocate` decides the patches and the slots; JitReloc.relocate_holder writes
+   them into the sections): for a holder with unique non-negative ids, proper buffers and a collision-free layout (every
+   flattened reachable holder), a successful relocation keeps every offset, leaves the layout collision-free and every buffer
+   as long as its size, and changes no section other than .text (id 0) and the address table ---- *)
+Theorem C10_relocate_holder_ok : forall h tab calls base h2 red,
+  NoDup (map sid h) -> (forall s, In s h -> 0 <= sid s) -> Forall data_ok h -> disjoint_layout h ->
+  relocate_holder h tab calls base = inl (h2, red) ->
+  Forall data_ok h2 /\ disjoint_layout h2 /\ Forall2 shr_rel h h2 /\ map soff h2 = map soff h /\ map sid h2 = map sid h /\
+  (forall s s2, In s h -> In s2 h2 -> sid s2 = sid s -> sid s <> 0 -> Some (sid s) <> tab -> s2 = s).
+Proof. exact relocate_holder_ok. Qed.
+Print Assumptions C10_relocate_holder_ok.
+
+(* a patch touches only the value word and the two opcode bytes in front of it, and never changes the buffer length *)
+Theorem C10_patch_touches_only_site : forall data e o, 2 <= e_off e + e_lead e -> 0 <= OffsetModel.vsize (e_fmt e) ->
+  e_off e + e_lead e + OffsetModel.vsize (e_fmt e) <= Z.of_nat (length data) ->
+  length (patch_site data e o) = length data /\
+  forall c, 0 <= c -> ~ (e_off e + e_lead e - 2 <= c < e_off e + e_lead e + OffsetModel.vsize (e_fmt e)) ->
+            cell (patch_site data e o) c = cell data c.
+Proof.
+  exact (fun data e o H2 Hv Hb => conj (patch_site_length data e o H2 Hv Hb)
+                                       (fun c Hc Ho => patch_site_outside data e o c H2 Hv Hb Hc Ho)).
+Qed.
+Print Assumptions C10_patch_touches_only_site.
+
+(* the bytes copied after relocation are exactly the relocated holder's bytes: every (patched) section byte at its unchanged
+   offset, the used table slots at the table's offset, zero padding as asked, every other cell untouched *)
+Theorem C10_relocated_copy_exact : forall h tab calls base h2 red mem dst ps pt mem',
+  NoDup (map sid h) -> (forall s, In s h -> 0 <= sid s) -> Forall data_ok h -> disjoint_layout h ->
+  relocate_holder h tab calls base = inl (h2, red) -> 0 <= dst <= Z.of_nat (length mem) ->
+  copy_flat h2 mem dst ps pt = (EOk, mem') ->
+  map soff h2 = map soff h /\ length mem' = length mem /\
+  (forall c, dst <= c -> cell mem' c = cell mem c) /\
+  (forall s, In s h2 -> forall k, 0 <= k < sbsize s -> cell mem' (soff s + k) = cell (sdata s) k) /\
+  (forall s, In s h2 -> forall c, soff s + sbsize s <= c < wend ps dst s -> cell mem' c = 0) /\
+  (pt = true -> forall c, ends ps dst h2 0 <= c < dst -> cell mem' c = 0) /\
+  (forall c, 0 <= c -> (forall s, In s h2 -> ~ (soff s <= c < wend ps dst s)) -> (pt = false \/ c < ends ps dst h2 0) ->
+             cell mem' c = cell mem c).
+Proof. exact relocated_copy_exact. Qed.
+Print Assumptions C10_relocated_copy_exact.
+
+(* JitRuntime::_add WITH relocations (model jit_add_reloc = flatten + estimate + relocate_holder + copy + shrink): the final
+   size is estimate - reduction, offsets are those of the flattened holder, and every byte of the relocated sections (patched
+   code, used table slots) that lies inside the final size is installed at its offset, zero tails likewise: the bytes
+   installed are exactly the relocated image.  The id premise holds for every reachable holder (second theorem). *)
+Theorem C10_jit_add_reloc_image : forall st calls base fill final img h2,
+  wf_holder (jh st) -> data_len_ok (jh st) ->
+  (forall h1, flatten (jh st) = (EOk, h1) -> NoDup (map sid h1) /\ (forall s, In s h1 -> 0 <= sid s)) ->
+  jit_add_reloc st calls base fill = (JOk, final, img, h2) ->
+  exists h1 red, flatten (jh st) = (EOk, h1) /\ relocate_holder h1 (jtab st) calls base = inl (h2, red) /\
+    final = code_size h1 - red /\ map soff h2 = map soff h1 /\
+    (forall s, In s h2 -> forall k, 0 <= k < sbsize s -> soff s + k < final -> cell (flat img) (soff s + k) = cell (sdata s) k) /\
+    (forall s, In s h2 -> forall c, soff s + sbsize s <= c < wend true (code_size h1) s -> c < final -> cell (flat img) c = 0).
+Proof. exact jit_add_reloc_image. Qed.
+Print Assumptions C10_jit_add_reloc_image.
+
+Theorem C10_reachable_ids_unique : forall h, reachable h -> NoDup (map sid h) /\ (forall s, In s h -> 0 <= sid s).
+Proof. exact reachable_ids_unique. Qed.
+Print Assumptions C10_reachable_ids_unique.
+
+Theorem C10_example_relocate : exists h2,
+  relocate_holder ex_rel (Some 1) [(0, 1311768467463790320); (6, 4198400)] 4194304 = inl (h2, 8) /\
+  map sdata h2 = [ [255; 21; 10; 0; 0; 0; 64; 232; 244; 15; 0; 0]; [240; 222; 188; 154; 120; 86; 52; 18] ] /\
+  map sbsize h2 = [12; 8] /\ map svsize h2 = [16; 8] /\ code_size h2 = 24.
+Proof. exact ex_relocate. Qed.
+Print Assumptions C10_example_relocate.
+
 (* ---- estimate before relocation >= size after: the address table t is the last section; relocate_to_base shrinks it
    from the reserved virtual size to the used slots; final size = estimate - reduction <= estimate ---- *)
 Theorem C10_estimate_monotone : forall h h' l1 t used, wf_holder h -> flatten h = (EOk, h') -> h' = l1 ++ [t] ->
-  0 <= used -> sbsize t <= used <= svsize t ->
+  (forall x, In x l1 -> sid x <> sid t) -> 0 <= used -> sbsize t <= used <= svsize t ->
   exists h'' r, shrink_last h' (sid t) used = (h'', r) /\ r = svsize t - used /\ 0 <= r /\
                 code_size h'' = code_size h' - r /\ code_size h'' <= code_size h'.
 Proof. exact estimate_monotone. Qed.
 Print Assumptions C10_estimate_monotone.
+
+(* the address table NOT last (or absent): its buffer becomes the used slots wherever it sits, the reservation (virtual size)
+   stays, nothing is reported, and neither code_size nor any offset / virtual size changes *)
+Theorem C10_addrtab_not_last : forall l1 t tab used, sid t <> tab -> 0 <= used ->
+  (forall x, In x l1 -> sid x = tab -> sbsize x <= used <= svsize x) ->
+  exists h'', shrink_last (l1 ++ [t]) tab used = (h'', 0) /\ code_size h'' = code_size (l1 ++ [t]) /\
+              map soff h'' = map soff (l1 ++ [t]) /\ map svsize h'' = map svsize (l1 ++ [t]).
+Proof. exact not_last_code_size. Qed.
+Print Assumptions C10_addrtab_not_last.
+
+(* ---- new_section: validation order and exact name limit (35 accepted, 36 refused), nothing changes on refusal ---- *)
+Theorem C10_new_section_validation : forall h name al ord,
+  (fst (new_section h name al ord) = EInvalidArgument <-> is_zero_or_pow2 al = false) /\
+  (fst (new_section h name al ord) = EInvalidSectionName <-> is_zero_or_pow2 al = true /\ MAX_NAME < Z.of_nat (length name)) /\
+  (fst (new_section h name al ord) = EOk <-> is_zero_or_pow2 al = true /\ Z.of_nat (length name) <= MAX_NAME) /\
+  (fst (new_section h name al ord) <> EOk -> snd (new_section h name al ord) = h).
+Proof. exact new_section_validation. Qed.
+Print Assumptions C10_new_section_validation.
+
+(* name_size == SIZE_MAX (strlen): the name is the buffer up to its first NUL; the section is found again by the same C string *)
+Theorem C10_cstr_names : (forall buf, Forall (fun c => c <> 0) (cstr buf)) /\
+  (forall buf, exists rest, buf = cstr buf ++ rest /\ (rest = [] \/ exists r, rest = 0 :: r)) /\
+  (forall h buf al ord h', reachable h -> 0 <= al < 4294967296 -> INT_MIN <= ord <= INT_MAX ->
+     new_section_cstr h buf al ord = (EOk, h') ->
+     exists j sj, section_by_name_cstr h' buf = Some j /\ 0 <= j <= Z.of_nat (length h) /\ by_id h' j = Some sj /\
+                  name_matches sj (cstr buf) = true).
+Proof. exact (conj cstr_no_nul (conj cstr_prefix new_section_cstr_findable)). Qed.
+Print Assumptions C10_cstr_names.
 
 (* ---- names: a created section is found under its name (first section of that name wins); names never influence the layout ---- *)
 Theorem C10_new_section_findable : forall h name al ord h', reachable h -> 0 <= al < 4294967296 -> INT_MIN <= ord <= INT_MAX ->
